@@ -197,6 +197,7 @@ func genDeterminism(repo string) {
 		}
 	}
 	var sites []detSite
+	var meterSites []string
 	for _, x := range files {
 		for _, d := range x.f.Decls {
 			fd, ok := d.(*ast.FuncDecl)
@@ -337,6 +338,11 @@ func genDeterminism(repo string) {
 					if s == "time.Now" || s == "time.Since" || strings.HasPrefix(s, "rand.") || s == "os.Getenv" || s == "os.Hostname" {
 						add(t, "environment", s)
 					}
+					// C17: the transaction's gas meter is the one place where work is charged; code that swaps it for another
+					// (an infinite one, a private one) takes the work that follows off the bill
+					if strings.HasSuffix(s, ".WithGasMeter") || strings.HasSuffix(s, ".WithBlockGasMeter") || strings.HasSuffix(s, "NewInfiniteGasMeter") || strings.HasSuffix(s, ".NewGasMeter") {
+						meterSites = append(meterSites, fmt.Sprintf("%s:%d %s `%s`", x.rel, fset.Position(t.Pos()).Line, fd.Name.Name, s))
+					}
 					if s == "float64" || s == "float32" || strings.HasPrefix(s, "math.") && s != "math.MaxInt64" && s != "math.MaxUint64" {
 						add(t, "float", s)
 					}
@@ -369,5 +375,6 @@ func genDeterminism(repo string) {
 	g.fact("filesScanned", "Nat", fmt.Sprint(len(files)), "consensus-relevant Go files scanned (x/, app/, vm/, common/ without tests, clients, simulation, generated code)")
 	g.fact("sites", "List String", strList(all), "every construct through which two nodes could diverge")
 	g.fact("unreviewed", "List String", strList(un), "sites without an entry in /verif/translator/determinism_reviewed.json")
+	g.fact("gasMeterSites", "List String", strList(meterSites), "C17: places in consensus code where a context's gas meter is replaced (none on the pinned tree)")
 	g.write("Determinism", nil)
 }
